@@ -349,6 +349,22 @@ def c07_scope(res, pid, rng, tier):
         tk = [t_ for t_ in toks if t_ in ln][0]
         if tk in out or tk[3:].split("$")[-1] in out:
             fails.append({"kind": "the secret survives in the output or in an INFO+ log record", "salt": cfgc.salt, "line": ln, "output": out})
+    # (b2') a `$9$` string and the same string without its last character (a torn copy): two different secrets
+    from .jun_checks import ref_encrypt as _enc7
+    # (six characters: the last group then has four characters of which the last carries the weight 128 - zero for ASCII - so that a decoder
+    #  which pairs characters and weights with zip() reads the torn copy as the same plaintext)
+    full9 = _enc7("Wint%d" % rng.randint(10, 99), rng.choice(ALPHA))
+    l_t = ['secret "%s"\n' % full9, 'secret "%s"\n' % full9[:-1], 'secret "%s"\n' % _enc7("Unre%d" % rng.randint(10, 99), rng.choice(ALPHA)),
+           'secret "%s"\n' % _enc7("Othe%d" % rng.randint(10, 99), rng.choice(ALPHA))[:-1]]
+    try:
+        o_t, _ = run_lines(cfgc, l_t)
+        res.evaluations += 4
+        r_t = [extract(o_, 'secret "{}"', "{}") for o_ in o_t]
+        if None in r_t or len(set(r_t)) != 4:
+            fails.append({"kind": "output or INFO+ log depends on the secret's content", "detail": "a `$9$` string and its torn copy are answered like one secret, "
+                          "two unrelated strings like two", "salt": cfgc.salt, "lines": l_t, "outputs": o_t})
+    except Exception as e:  # noqa
+        fails.append({"kind": "anonymize_io raised on a recognised line form", "exc": repr(e), "salt": cfgc.salt})
     # (b3) two directory runs in one process with the same settings: each run is a run of its own (its secrets are numbered from 0, whatever
     #      an earlier run saw)
     import tempfile as _tf2
@@ -827,7 +843,9 @@ def c09_scope(res, pid, rng, tier):
             # a sensitive word that occurs inside some of the secrets: the secret is replaced first, so its format class is the original's
             picks = [h[2] for h in hist if h[3] in ("numeric", "type7", "hex", "md5") and len(h[2]) >= 8][:3]
             # (pieces with a letter: an all-digit piece can turn up in the digits of a numeric replacement by chance)
-            cfg = fa.FaCfg(salt=cfg.salt, pwd=True, words=[p_[3:7] for p_ in picks if not p_[3:7].isdigit()] or ["zzzq"])
+            # (all-digit pieces are taken eight digits long, so that they cannot turn up in the digits of a numeric replacement by chance)
+            cfg = fa.FaCfg(salt=cfg.salt, pwd=True, words=[(p_[2:10] if p_[2:10].isdigit() and len(p_) >= 11 else p_[3:7]) for p_ in picks
+                                                        if not p_[3:7].isdigit() or (p_[2:10].isdigit() and len(p_) >= 11)] or ["zzzq"])
         # all type-7 salts, all md5 salt lengths, many $9$ salt characters
         for k in range(16):
             hist.append((" password 7 {}", "{}", cisco_type7.using(salt=k).hash("pw%dxyz" % k), "type7"))
@@ -944,4 +962,20 @@ def c09_scope(res, pid, rng, tier):
         if outs_c and (len(outs_c) != len(copies) or any(frame(a) != frame(b) for a, b in zip(copies, outs_c))):
             fails.append({"kind": "white space before / after the line or its terminator not kept in place when the same secret line occurs again",
                           "salt": cfg.salt, "lines": copies, "outputs": outs_c})
+    # a listed word that occurs inside a secret: the secret is replaced first, so the replacement has the secret's own format class
+    # (and md5 salt length), whatever the word stage would have made of the secret
+    cfgk = fa.FaCfg(salt="kw", pwd=True, words=["471108", "acme", "822455"])
+    lk = [("set password {}", "4711081577", "numeric"), ("enable secret 5 {}", "$1$ACME$Xw1kQz8fLr3pT0vYb6NcM.", "md5"), (" password 7 {}", "0822455D0A16", "type7"),
+          ("key hexadecimal {}", "c0ffee822455", "hex")]
+    try:
+        ok_, _ = run_lines(cfgk, [t_.format(s_) + "\n" for t_, s_, _ in lk])
+    except Exception as e:  # noqa
+        fails.append({"kind": "anonymize_io raised", "exc": repr(e), "salt": "kw"})
+        ok_ = []
+    for (t_, s_, c_), o_ in zip(lk, ok_):
+        res.evaluations += 1
+        rep = extract(o_, t_, "{}")
+        if rep is None or spec_class(rep) != c_ or (c_ == "md5" and len(rep.split("$")[2]) != 4):
+            fails.append({"kind": "replacement does not have the original's format", "salt": "kw", "sensitive_words": cfgk.words, "line": t_.format(s_),
+                          "output": o_, "original_class": c_, "replacement_class": None if rep is None else spec_class(rep)})
     return [], fails
